@@ -1305,6 +1305,21 @@ class Interp:
                         self.assign_target(t.value, op("rest", tv, sp.Integer(i)), env, node)
                     else:
                         self.assign_target(t, self.lib.term_getitem(self, tv, sp.Integer(i), env, node), env, node)
+        elif isinstance(target, ast.Attribute) and target.attr in ("real", "imag") and isinstance(target.value, ast.Name) \
+                and is_term(env.lookup(target.value.id)):
+            # z.real = a / z.imag = b on an array held in a local: the other part is kept (an uninitialised buffer has none yet)
+            old = to_term(env.lookup(target.value.id))
+            blank = fname(old) in ("empty", "zeros", "empty_like", "zeros_like")
+            re_, im_ = (sp.Integer(0), sp.Integer(0)) if blank else (old, sp.Integer(0))
+            if not blank and old.has(sp.I):
+                eo = sp.expand(old)
+                im_ = eo.coeff(sp.I)
+                re_ = eo - sp.I * im_
+            if target.attr == "real":
+                re_ = to_term(value)
+            else:
+                im_ = to_term(value)
+            self.assign_target(ast.Name(id=target.value.id, ctx=ast.Store()), re_ + sp.I * im_, env, node)
         elif isinstance(target, ast.Attribute):
             base = self.eval(target.value, env)
             self.set_attr(base, target.attr, value, env, target)
